@@ -645,6 +645,23 @@ func (c *Conn) Seek(offset int64, whence int) (int64, error) {
 		return 0, fmt.Errorf("whence must be one of 0, 1, 2, or 3. (whence = %d)", whence)
 	}
 
+	if whence == SeekCurrent {
+		// Until the first successful Seek (or read) the current offset is one of
+		// the symbolic values FirstOffset / LastOffset (see Offset): a seek
+		// relative to it is a seek relative to the start / end of the partition
+		// and needs the real offsets.
+		c.mutex.Lock()
+		current := c.offset
+		c.mutex.Unlock()
+
+		switch current {
+		case FirstOffset:
+			whence, seekDontCheck = SeekStart, false
+		case LastOffset:
+			whence, offset, seekDontCheck = SeekEnd, -offset, false
+		}
+	}
+
 	if seekDontCheck {
 		if whence == SeekAbsolute {
 			c.mutex.Lock()
